@@ -45,6 +45,10 @@ pub struct Case {
     pub scenario: Scenario,
     pub rwlock: bool,
     pub word: Vec<Step>,
+    /// the worker stays parked where the word left it until the enabling message has been processed and acknowledged
+    /// (the enabling message overtakes a worker that is in the middle of a wake-up)
+    #[serde(default)]
+    pub hold: bool,
 }
 
 pub const F9A_SIG: &str = "C12/F9a-handler-entered-after-disable-reply-worker-past-read_kick";
@@ -213,15 +217,31 @@ fn run_generic<V: VringT<GM> + Clone + Send + Sync + 'static>(ctx: &mut Ctx, c: 
             reply_at = Some(read_reply(&sched)?);
         }
         let reply_at = reply_at.unwrap();
-        // now the worker may run on: everything it does until the enabling message is "after the reply"
-        sched.disarm_all();
-        sched.release_all();
-        // give the worker the chance to do what it is going to do (quiescence, not a deadline)
-        let t0 = Instant::now();
-        while let Some(tid) = find_tid(WORKER) {
-            if asleep(tid, 6) || t0.elapsed() > BOUND {
-                break;
+        let worker_parked_at = sched.parked().into_iter().find(|p| p.thread.starts_with(WORKER)).map(|p| p.name);
+        if c.hold && worker_parked_at.is_none() {
+            // nothing to hold: this run would repeat the plain variant of the word
+            ctx.class("hold_variant_worker_not_parked_skipped");
+            sched.disarm_all();
+            sched.release_all();
+            return Ok(());
+        }
+        let settle = || {
+            // give the worker the chance to do what it is going to do (quiescence, not a deadline)
+            let t0 = Instant::now();
+            while let Some(tid) = find_tid(WORKER) {
+                if asleep(tid, 6) || t0.elapsed() > BOUND {
+                    break;
+                }
             }
+        };
+        if !c.hold {
+            // now the worker may run on: everything it does until the enabling message is "after the reply"
+            sched.disarm_all();
+            sched.release_all();
+            settle();
+        } else {
+            trace.push(format!("hold:{}", worker_parked_at.unwrap_or("?")));
+            ctx.class(&format!("hold_at_{}", worker_parked_at.unwrap_or("?")));
         }
         let enable_at = sched.mark("enable_sent");
         let k2 = new_eventfd();
@@ -232,6 +252,13 @@ fn run_generic<V: VringT<GM> + Clone + Send + Sync + 'static>(ctx: &mut Ctx, c: 
         };
         if r.map_err(|e| format!("enabling message: {e}"))? != 0 {
             return Err("enabling message refused".into());
+        }
+        if c.hold {
+            // the enabling message has been processed and acknowledged: only now does the worker continue its wake-up
+            sched.mark("worker_released_after_enable");
+            sched.disarm_all();
+            sched.release_all();
+            settle();
         }
         // (3) worker alive
         fx.barrier().map_err(|e| format!("after the scenario: {e} (worker thread ended?) trace {trace:?}"))?;
@@ -255,7 +282,7 @@ fn run_generic<V: VringT<GM> + Clone + Send + Sync + 'static>(ctx: &mut Ctx, c: 
             csteps.iter().any(|ci| wsteps.iter().any(|w| w < ci) && wsteps.iter().any(|w| w > ci))
         };
         if interleaved {
-            ctx.nontrivial(&(c.scenario, c.rwlock, &trace));
+            ctx.nontrivial(&(c.scenario, c.rwlock, c.hold, &trace));
             ctx.class("interleaved_schedule");
         }
         ctx.class(&format!("scenario_{:?}", c.scenario));
@@ -356,7 +383,7 @@ pub fn run(ctx: &mut Ctx) {
     ctx.rule = "all words over {W: worker advances to its next hold point, C: control path advances (send, after_state_change, after_epoll_update, \
                 reply read), K: one more guest kick} with 4 W and 3 C steps and at most one K, for scenarios disable/enable, stop/restart, \
                 reset/re-feature, on VringMutex and VringRwLock rings; each word runs on a fresh daemon with one ring that is started, enabled \
-                and kicked once. A party that cannot advance (asleep without being parked) makes that step a no-op. Non-trivial = a schedule in \
+                and kicked once; every word is run twice: the worker continues before the enabling message is sent, or it stays parked where the word left it until the enabling message has been acknowledged. A party that cannot advance (asleep without being parked) makes that step a no-op. Non-trivial = a schedule in \
                 which a control step lies strictly between two worker steps of the same wake-up; distinct by the trace actually realised."
         .into();
     ctx.assumptions = vec![
@@ -370,7 +397,10 @@ pub fn run(ctx: &mut Ctx) {
     for scenario in [Scenario::DisableEnable, Scenario::StopRestart, Scenario::ResetRefeature] {
         for rwlock in [false, true] {
             for w in words(4, 3, with_k) {
-                space.push(Case { scenario, rwlock, word: w });
+                space.push(Case { scenario, rwlock, word: w.clone(), hold: false });
+                // the same word with the worker held across the enabling message (only words that can leave the worker
+                // parked inside its wake-up: the last worker step is not the fourth)
+                space.push(Case { scenario, rwlock, word: w, hold: true });
             }
         }
     }
@@ -378,7 +408,8 @@ pub fn run(ctx: &mut Ctx) {
         // longer words: two wake-ups
         for scenario in [Scenario::DisableEnable, Scenario::ResetRefeature] {
             for w in words(6, 3, false) {
-                space.push(Case { scenario, rwlock: true, word: w });
+                space.push(Case { scenario, rwlock: true, word: w.clone(), hold: false });
+                space.push(Case { scenario, rwlock: true, word: w, hold: true });
             }
         }
     }
